@@ -21,6 +21,7 @@ import GT.Lemmas.Names
 import GT.Lemmas.Sym2Rep
 import GT.Lemmas.RepHomUnits
 import GT.Lemmas.SlnAdjoint
+import GT.Lemmas.RepSubNoInv
 import Mathlib.Data.ZMod.Basic
 import Mathlib.Tactic.FinCases
 
@@ -266,6 +267,18 @@ theorem subgroup_hom {invert : DMat n n R → Option (DMat n n R)} (hinv : Inver
     {A : Matrix (Fin n) (Fin n) R} (hA : ρ.value (Rep.substWord ρ.inv pairs u) = .ok A) :
     σ.value u = .ok A ∧ σ.WF :=
   Rep.subgroup_value hinv hσ hc hn u hu hA
+
+/-- `rep.subgroup(..., compute_inverse=False)` (the inverse letter gets the image of the formal
+inverse word — repaired code: the formal inverse of the *parsed* word): same substitution law -/
+theorem subgroup_noinv_hom {invert : DMat n n R → Option (DMat n n R)} (hinv : InvertOK invert)
+    {ρ σ : Rep n R} {pairs : List (Gen × Word)} {rels : List Word}
+    (hσ : ρ.subgroup invert pairs false rels = .ok σ) (hc : ρ.Coherent)
+    (hn : Rep.NamesOK invertGen (pairs.map Prod.fst))
+    (hi : ∀ g ∈ pairs.map Prod.fst, ρ.inv g = invertGen g)
+    (u : Word) (hu : ∀ x ∈ u, x ∈ pairs.map Prod.fst ∨ ∃ g ∈ pairs.map Prod.fst, x = invertGen g)
+    {A : Matrix (Fin n) (Fin n) R} (hA : ρ.value (Rep.substWord ρ.inv pairs u) = .ok A) :
+    σ.value u = .ok A ∧ σ.WF :=
+  Rep.subgroup_noinv_value hinv hσ hc hn hi u hu hA
 
 /-- the side conditions on names used above hold for every dict of names that `_set_generator`
 accepts -/
